@@ -120,6 +120,18 @@ impl Req {
         s.push_str("\r\n");
         s.into_bytes()
     }
+    /// Only for generated (not raw) heads: extra fields plus the content-length field.
+    pub fn expected_headers(&self) -> Option<Vec<(String, String)>> {
+        if self.raw_head.is_some() {
+            return None;
+        }
+        let mut v: Vec<(String, String)> = self.extra_headers.clone();
+        if let ReqKind::Known(n) = self.kind {
+            v.push(("content-length".into(), n.to_string()));
+        }
+        v.sort();
+        Some(v)
+    }
     pub fn has_pending_body(&self, cfg: &ServerCfg) -> bool {
         match self.kind {
             ReqKind::Known(n) => n > cfg.small_body_len,
@@ -135,6 +147,9 @@ pub struct ExpCall {
     pub pending: bool,
     pub body: Option<Vec<u8>>,
     pub meta: Option<Meta>,
+    /// The header fields the handler must see (what was sent minus the framing fields the
+    /// library consumes), compared as a multiset: their order is C14's matter.
+    pub headers: Option<Vec<(String, String)>>,
 }
 
 #[derive(Clone, Debug)]
@@ -204,6 +219,7 @@ pub fn model_conn(reqs: &[Req], cfg: &ServerCfg) -> ConnExpect {
                 pending: false,
                 body: Some(body),
                 meta: r.meta.clone(),
+                headers: r.expected_headers(),
             });
             match &r.plan.on_ready {
                 OnReady::Respond => {
@@ -244,7 +260,7 @@ pub fn model_conn(reqs: &[Req], cfg: &ServerCfg) -> ConnExpect {
                 ready_phase(&mut e, r.body(), false)
             }
             ReqKind::HugeKnown(n) => {
-                e.calls.push(ExpCall { path: r.path.clone(), pending: true, body: None, meta: r.meta.clone() });
+                e.calls.push(ExpCall { path: r.path.clone(), pending: true, body: None, meta: r.meta.clone(), headers: r.expected_headers() });
                 match &r.plan.on_pending {
                     OnPending::Respond => e.resps.push(plan_resp(&r.plan.resp)),
                     OnPending::GetBody(m) | OnPending::RecvBody(m) => {
@@ -262,7 +278,7 @@ pub fn model_conn(reqs: &[Req], cfg: &ServerCfg) -> ConnExpect {
                 false
             }
             ReqKind::Coded(_) => {
-                e.calls.push(ExpCall { path: r.path.clone(), pending: true, body: None, meta: r.meta.clone() });
+                e.calls.push(ExpCall { path: r.path.clone(), pending: true, body: None, meta: r.meta.clone(), headers: r.expected_headers() });
                 match &r.plan.on_pending {
                     OnPending::Respond => e.resps.push(plan_resp(&r.plan.resp)),
                     OnPending::GetBody(_) | OnPending::RecvBody(_) => {
@@ -285,6 +301,7 @@ pub fn model_conn(reqs: &[Req], cfg: &ServerCfg) -> ConnExpect {
                     pending: true,
                     body: None,
                     meta: r.meta.clone(),
+                    headers: r.expected_headers(),
                 });
                 let fetch = |e: &mut ConnExpect, m: u64, ready: &mut dyn FnMut(&mut ConnExpect, Vec<u8>, bool) -> bool| -> bool {
                     if cfg.cache_dir.is_none() {
@@ -390,6 +407,13 @@ pub fn check_conn(prop: &str, conn_label: &str, exp: &ConnExpect, calls: &[Call]
                         &format!("{prop}.handler_runs"),
                         format!("{conn_label}: handler run #{i} for {} had pending={} but the model says pending={}", c.path, c.pending, e.pending),
                     );
+                }
+                if let Some(h) = &e.headers {
+                    let mut got = c.headers.clone();
+                    got.sort();
+                    if &got != h {
+                        return v(&format!("{prop}.headers_seen_by_handler"), format!("{conn_label}: {} handler saw header fields {got:?}, the client sent {h:?} (framing fields the library consumes excluded)", c.path));
+                    }
                 }
                 if let Some(m) = &e.meta {
                     if let Some(ct) = &m.ctype {
